@@ -397,6 +397,12 @@ func tearWrite(sp *spec, res *engine.Result, st vfs.Step) string {
 	if (base+cut)%bufSize == 0 {
 		res.Hit("torn-write:file-ends-at-buffer-boundary")
 	}
+	for _, op := range sp.Ops {
+		switch op {
+		case "A2", "A3", "A6", "A7":
+			res.Hit("torn-write:after-lossy-form")
+		}
+	}
 	return ""
 }
 
@@ -525,6 +531,41 @@ func enumerateBig(tier string, emit func(string)) {
 			}
 		}
 	})
+	// the lossy forms of the menu (TAB inside, blanks around, blank, empty line inside) next to a torn long entry: what
+	// Load does to a line (trimming it, skipping it, splitting it) and the byte count by which it cuts a torn tail
+	// off the file are computed in the same loop. Only histories with at least one lossy form (the others are above);
+	// the comparison is made after norm() (the lossy transformations themselves are listed findings).
+	nl := 2
+	if thorough {
+		nl = 3
+	}
+	lossyOp := map[string]bool{"A2": true, "A3": true, "A6": true, "A7": true}
+	bigHistories("AL", []string{"A0", "A2", "A3", "A6", "A7", "C9,9"}, nl, func(h []string) {
+		any := false
+		for _, op := range h {
+			any = any || lossyOp[op]
+		}
+		if !any {
+			return
+		}
+		for _, L := range []int{5, 3} {
+			if L == 3 && len(h) < 3 {
+				continue
+			}
+			steps := bigCrashSteps
+			if L == 5 && h[len(h)-1][0] == 'A' {
+				steps = 3
+			}
+			for _, a := range torn {
+				for k := 1; k <= steps; k++ {
+					emit((&spec{K: "bighist", L: L, Ops: h, Mode: "r", Aim: a.name, V: a.v, B: a.b, D: a.d, Crash: k}).String())
+					for _, t := range tears {
+						emit((&spec{K: "bighist", L: L, Ops: h, Mode: "r", Aim: a.name, V: a.v, B: a.b, D: a.d, Crash: k, Tear: t}).String())
+					}
+				}
+			}
+		}
+	})
 	// stash: Add writes the expanded format (one line per line, an empty line after the form), Clear rewrites the
 	// file in the TAB format, so a TAB of the stash file exists only after an X
 	bigHistories("SL", []string{"S0", "S1", "SM", "X9,9"}, n, func(h []string) {
@@ -555,7 +596,7 @@ var bigRequired = []string{
 	"big-line-of-exactly-one-buffer", "big-long-after-short", "big-short-after-long",
 	"big-stale-newline-beyond-count", "big-short-read-after-full-read", "big-crash-reached",
 	"torn-write", "torn-write:file-page", "torn-write:write-page", "torn-write:in-compaction", "torn-write:in-clear-rewrite",
-	"torn-write:file-ends-at-buffer-boundary",
+	"torn-write:file-ends-at-buffer-boundary", "torn-write:after-lossy-form",
 }
 
 func bigBound(tier string) string {
